@@ -12,6 +12,9 @@ func (e *DB) NewSnapshot() (*Snapshot, error) {
 	if e == nil || e.pdb == nil {
 		return nil, dberrors.ErrClosed
 	}
+	if e.pdb.crash != nil && e.pdb.crash.dead {
+		return nil, errMemCrashed
+	}
 	cp := &memStore{rows: make([]memKV, len(e.pdb.rows))}
 	for i, r := range e.pdb.rows {
 		cp.rows[i] = memKV{key: memCopy(r.key), value: memCopy(r.value)}
